@@ -55,7 +55,7 @@ def run(ck, F):
         if not F.derives_from(cls, 'ipr::Expr'):
             continue
         classes += 1
-        label = (contracts.short(ifc) if ifc else '?') + '[' + contracts.short(cls) + tag + ']'
+        label = (contracts.short(ifc) if ifc else '?') + '[' + contracts.short(cls) + tag + ppgraph.variant_tag(prov) + ']'
         for kind, fn in sorted(ents.items()):
             if kind == 'xpr_type' and not F.derives_from(cls, 'ipr::Type'):
                 continue
